@@ -325,12 +325,43 @@ def rule_frame_steps(ck):
                         cl_ok = True
             ok = "any(" in txt and "registers(" in txt and cl_ok
     ck.ob("mpt.frame_steps", "new/outermost=explicit-undefined-rule-for-RA-register", ok, "", new.loc())
-    # cycle guard key
-    f = ck.anchor(f"{UNW}::unwind")
-    ins = [c for c in f.calls() if re.search(r"HashSet::<T, S(, A)?>::insert$", c.name) and c.bb in f.after(c.bb)]
-    for k, c in enumerate(ins):
-        key = expr_str(expr_of(f, c.args[1], depth=8), 8)
-        ck.ob("mpt.frame_steps", f"unwind/cycle-guard#{k}/keyed-by-(ip,cfa)", ".cfa" in key, f"key = {key[:120]}", f.loc(c.bb), what="the unwind loop stops at the first repeated return address: direct recursion repeats the return address, the backtrace is cut after the first recursive frame")
+    # cycle guard key: in every walk over frames of the unwinder
+    for nm in ("unwind", "restore_registers_at_frame", "return_address", "context_for"):
+        f = prog.fns.get(f"{UNW}::{nm}")
+        if f is None:
+            continue
+        ck.saw(f)
+        ins = [c for c in f.calls() if re.search(r"Hash(Set|Map)::<.*>::insert$", c.name) and c.bb in f.after(c.bb)]
+        for k, c in enumerate(ins):
+            key = expr_str(expr_of(f, c.args[1], depth=8), 8)
+            ck.ob("mpt.frame_steps", f"{nm}/cycle-guard#{k}/keyed-by-(ip,cfa)", ".cfa" in key, f"key = {key[:120]}", f.loc(c.bb), what=f"{nm}: the walk over frames stops at the first repeated return address: direct recursion repeats the return address")
+    # restore_registers_at_frame(n) walks exactly n-1 frames or fails: leaving the loop early hands out another frame's registers
+    r = ck.anchor(f"{UNW}::restore_registers_at_frame")
+    nxt = [c for c in r.calls() if is_iter_next(c) and c.bb in r.after(c.bb)]
+    if nxt:
+        h = nxt[0].bb
+        loop = {b for b in r.after(h) if h in r.after(b)} | {h}
+        errs = r.error_exit_blocks()
+        exits = set()
+        # the legitimate exit: the switch on the `next()` result of the range (None = n-1 frames walked)
+        legit = {h}
+        for b in loop:
+            t = r.blocks[b]["term"]
+            if t["t"] == "switch" and "next(" in expr_str(expr_of(r, t["discr"], depth=4), 4):
+                legit.add(b)
+        for b in loop:
+            for s2 in r.succ(b):
+                if s2 not in loop and not r.blocks[s2].get("cleanup") and b not in legit:
+                    # an edge leaving the loop from its body: fine only when it leads to an error exit
+                    if _reaches_ok(r, s2, errs):
+                        exits.add(b)
+        ck.ob("mpt.frame_steps", "restore_registers_at_frame/no-silent-early-exit", not exits, f"{len(exits)} edge(s) leave the frame walk before frame n is reached and still return Ok", r.loc(h), what="restore_registers_at_frame silently hands out the registers of a younger frame")
+
+
+def _reaches_ok(f, start, errs):
+    """can a normal (non-error) return be reached from start without passing an error-exit block"""
+    reach = f.reach_from([start], avoid=set(errs)) | {start}
+    return bool(reach & set(f.return_blocks())) and start not in errs
 
 
 def _root_local(f, op):
